@@ -8,6 +8,10 @@
 //	    point: idle head reqmod rt resmod write   progress point at which the connection is parked when Close is called
 //	           headc                              like head, but the half head arrives in the SAME write as a complete request that
 //	                                              is served keep-alive first (the bytes sit in the proxy's bufio.Reader)
+//	           tun                                a blind tunnel (CONNECT) that is HALF-CLOSED when Close is called: /s the client
+//	                                              sent its request and half-closed, the target is streaming a 1 MiB answer the
+//	                                              client has not read yet; /w the target said hello and half-closed, the client
+//	                                              is still uploading 1 MiB. The stream must be delivered completely.
 //	           late lateb latec lated             connection dialled (with a full request) after closing became visible, on the
 //	                                              first / second / third / fourth listener served by the same proxy
 //	           unreg                              Serve is held between l.Accept() and `go handleLoop` (first conn.RemoteAddr()
@@ -45,7 +49,8 @@
 // OUT tokens: the trace, then "|", then one K<id>=<responses>:<end> per
 // accepted connection (responses: m marked complete, u unmarked complete,
 // T truncated or corrupt; end: c closed, o still open), then flags
-// (DEADLOCK: Close did not return; UNACCEPTED_SERVED: a client whose
+// (TUNNEL_TRUNCATED: the stream through a half-closed tunnel was cut; UNACCEPTED_OPEN: a connection dialled after
+// shutdown that Serve never accepted is left hanging, neither refused nor closed; DEADLOCK: Close did not return; UNACCEPTED_SERVED: a client whose
 // connection was never accepted got a response; PANIC).
 //
 // Trace tokens (all recorded synchronously inside the proxy's own goroutines
@@ -126,6 +131,7 @@ type run struct {
 	nextPark   string
 	nextParkAt int
 	nextOut    string
+	flags      []string
 	dialMap    map[string]*connRec // tunnel target (or downstream proxy) address -> the connection whose CONNECT dials it
 	nextUnreg  bool
 	unregGate  chan struct{}
@@ -142,6 +148,19 @@ func newRun() *run {
 func (h *run) add(tok string) {
 	h.mu.Lock()
 	h.ev = append(h.ev, tok)
+	h.mu.Unlock()
+}
+
+// flag records a harness-level observation that is appended to OUT after the client views.
+func (h *run) flag(f string) {
+	h.mu.Lock()
+	for _, x := range h.flags {
+		if x == f {
+			h.mu.Unlock()
+			return
+		}
+	}
+	h.flags = append(h.flags, f)
 	h.mu.Unlock()
 }
 
@@ -253,7 +272,11 @@ func (c *recConn) CloseWrite() error {
 
 func (c *recConn) Write(b []byte) (int, error) {
 	if atomic.LoadInt32(&c.cr.raw) == 1 {
-		return c.Conn.Write(b)
+		atomic.StoreInt32(&c.cr.inWrite, 1)
+		n, err := c.Conn.Write(b)
+		atomic.StoreInt32(&c.cr.inWrite, 0)
+		atomic.AddInt64(&c.cr.written, int64(n))
+		return n, err
 	}
 	var pre []string
 	done := 0
@@ -469,6 +492,102 @@ func startEcho() (net.Listener, error) {
 		}
 	}()
 	return l, nil
+}
+
+// startStreamTarget: the target of a half-closed tunnel. kind 's': read the request to EOF, then stream
+// a 1 MiB answer. kind 'w': say hello, half-close, then read a 1 MiB upload to EOF and check it.
+func startStreamTarget(kind byte, bad func()) (net.Listener, error) {
+	l, err := net.Listen("tcp", "127.0.0.1:0")
+	if err != nil {
+		return nil, err
+	}
+	go func() {
+		c, err := l.Accept()
+		if err != nil {
+			return
+		}
+		defer c.Close()
+		c.SetDeadline(time.Now().Add(30 * time.Second))
+		if kind == 's' {
+			io.Copy(io.Discard, c)
+			c.Write(bodyFor(bigBody))
+			return
+		}
+		c.Write([]byte("hello"))
+		if tc, ok := c.(*net.TCPConn); ok {
+			tc.CloseWrite()
+		}
+		got, _ := io.ReadAll(c)
+		if !bytes.Equal(got, upBody(bigBody)) {
+			bad()
+		}
+	}()
+	return l, nil
+}
+
+// tunnelOpen: CONNECT, read the 200, bring the tunnel to its half-closed state. Returns false if that failed.
+func (cl *client) tunnelOpen(target string, kind byte) bool {
+	cl.sendConnect(target, -2)
+	cl.c.SetDeadline(time.Now().Add(10 * time.Second))
+	marked := strings.Contains(cl.peekHead(), "\r\nconnection: close\r\n")
+	res, err := http.ReadResponse(cl.br, &http.Request{Method: "CONNECT"})
+	if err != nil || res.StatusCode != 200 {
+		return false
+	}
+	code := byte('u')
+	if marked {
+		code = 'm'
+	}
+	cl.mu.Lock()
+	cl.resps = append(cl.resps, code)
+	cl.mu.Unlock()
+	tc, _ := cl.c.(*net.TCPConn)
+	if kind == 's' {
+		cl.c.Write([]byte("give me the big answer"))
+		if tc != nil {
+			tc.CloseWrite()
+		}
+		return true
+	}
+	// kind 'w': the target's direction ends first; start the upload
+	hello, err := io.ReadAll(cl.br)
+	if err != nil || string(hello) != "hello" {
+		return false
+	}
+	_, err = cl.c.Write(upBody(bigBody)[:upFirst])
+	return err == nil
+}
+
+// tunnelFinish: after the release, the stream must get through completely.
+func (cl *client) tunnelFinish(kind byte) bool {
+	// this goroutine is the only reader of the connection from now on (drain becomes a no-op)
+	owner := false
+	cl.once.Do(func() { owner = true })
+	cl.c.SetDeadline(time.Now().Add(10 * time.Second))
+	ok := true
+	if kind == 's' {
+		got, _ := io.ReadAll(cl.br)
+		ok = bytes.Equal(got, bodyFor(bigBody))
+	} else {
+		rest := upBody(bigBody)[upFirst:]
+		for len(rest) > 0 && ok {
+			k := 64 << 10
+			if k > len(rest) {
+				k = len(rest)
+			}
+			if _, err := cl.c.Write(rest[:k]); err != nil {
+				ok = false
+			}
+			rest = rest[k:]
+			time.Sleep(2 * time.Millisecond)
+		}
+	}
+	cl.c.Close()
+	cl.setEnd('c')
+	if owner {
+		close(cl.done)
+	}
+	return ok
 }
 
 // startDownstream: a proxy that answers every CONNECT with 200 and then echoes.
@@ -1117,6 +1236,8 @@ func parseForced(in []string) (sz int, specs []*spec, order []int, async bool, s
 				allowed = "qkxyzruvabnoetdm"
 			case "resmod":
 				allowed = "qkxyzrabnoetdm"
+			case "tun":
+				allowed = "sw"
 			case "write":
 				allowed = "qrgabe"
 			}
@@ -1259,7 +1380,7 @@ func runForced(in []string) (out []string) {
 		switch s.point {
 		case "reqmod", "rt", "resmod":
 			h.nextPark, h.nextParkAt, h.nextOut = s.point, s.warm, s.out
-		case "write":
+		case "write", "tun":
 			h.nextParkAt, h.nextOut = s.warm, s.out
 		case "unreg":
 			h.nextUnreg = true
@@ -1363,6 +1484,41 @@ func runForced(in []string) (out []string) {
 			case <-time.After(10 * time.Second):
 				flags = append(flags, "NOPARK")
 			}
+		case "tun":
+			tk := byte('s')
+			if strings.Contains(s.out, "w") {
+				tk = 'w'
+			}
+			cr := s.cr
+			tl, err := startStreamTarget(tk, func() { h.flag("TUNNEL_TRUNCATED") })
+			if err != nil {
+				return []string{"ENVFAIL"}
+			}
+			e.aux = append(e.aux, tl)
+			h.mu.Lock()
+			h.dialMap[tl.Addr().String()] = cr
+			h.mu.Unlock()
+			if !cl.tunnelOpen(tl.Addr().String(), tk) {
+				flags = append(flags, "NOPARK")
+			}
+			if tk == 's' {
+				// parked when the answer is streaming and the socket write towards the client has stalled
+				var last int64 = -1
+				stable := 0
+				waitFor(10*time.Second, func() bool {
+					w := atomic.LoadInt64(&cr.written)
+					if atomic.LoadInt32(&cr.raw) == 1 && w > 100 && w == last && atomic.LoadInt32(&cr.inWrite) == 1 {
+						stable++
+					} else {
+						stable = 0
+					}
+					last = w
+					time.Sleep(2 * time.Millisecond)
+					return stable >= 25
+				})
+			} else {
+				time.Sleep(20 * time.Millisecond)
+			}
 		case "write":
 			if s.coal {
 				cl.sendThenHalf(bigBody)
@@ -1427,7 +1583,7 @@ func runForced(in []string) (out []string) {
 	var parkedIdx []int
 	for i, s := range specs {
 		switch s.point {
-		case "reqmod", "rt", "resmod", "write":
+		case "reqmod", "rt", "resmod", "write", "tun":
 			parkedIdx = append(parkedIdx, i)
 		case "idle", "head", "headc":
 			if s.after == 'c' {
@@ -1452,6 +1608,24 @@ func runForced(in []string) (out []string) {
 	}
 	for _, i := range rel {
 		s := specs[i]
+		if s.point == "tun" {
+			tk := byte('s')
+			if strings.Contains(s.out, "w") {
+				tk = 'w'
+			}
+			fin := func() {
+				if !s.cl.tunnelFinish(tk) {
+					h.flag("TUNNEL_TRUNCATED")
+				}
+			}
+			if async {
+				go fin()
+				continue
+			}
+			fin()
+			waitFor(10*time.Second, func() bool { return atomic.LoadInt32(&s.cr.closedEv) == 1 })
+			continue
+		}
 		if s.point != "write" {
 			close(s.cr.release)
 			if strings.ContainsAny(s.out, "uv") {
@@ -1577,10 +1751,18 @@ func (e *env) finish(all []*client, flags []string) []string {
 		}
 	}
 	for _, cl := range byLocal {
-		if v := cl.view(); !strings.HasPrefix(v, ":") {
+		v := cl.view()
+		if !strings.HasPrefix(v, ":") && v != "!" {
 			flags = append(flags, "UNACCEPTED_SERVED")
 		}
+		if strings.HasSuffix(v, ":o") {
+			// dialled after shutdown, handshake completed by the kernel, never accepted, never closed
+			flags = append(flags, "UNACCEPTED_OPEN")
+		}
 	}
+	h.mu.Lock()
+	flags = append(flags, h.flags...)
+	h.mu.Unlock()
 	return append(out, flags...)
 }
 
@@ -1695,7 +1877,16 @@ func runStress(in []string) []string {
 			c.c.Close()
 		}
 	}()
-	return e.finish(all, flags)
+	// In an unforced race a dial can complete its handshake at the very moment Serve closes the
+	// listener; whether the kernel then resets it is not the proxy's doing. "Left hanging" is
+	// judged in the forced scenarios only, where the extra dials come after Serve has returned.
+	var res []string
+	for _, t := range e.finish(all, flags) {
+		if t != "UNACCEPTED_OPEN" {
+			res = append(res, t)
+		}
+	}
+	return res
 }
 
 func runCase(in []string) (out []string) {
@@ -1743,7 +1934,9 @@ func perms(n int) [][]int {
 	return res
 }
 
-func isParked(p string) bool { return p == "reqmod" || p == "rt" || p == "resmod" || p == "write" }
+func isParked(p string) bool {
+	return p == "reqmod" || p == "rt" || p == "resmod" || p == "write" || p == "tun"
+}
 
 func orderTok(o []int) string {
 	s := make([]string, len(o))
@@ -2080,6 +2273,23 @@ func main() {
 		} {
 			n++
 			cfg.Count("late-multi")
+			jobs = append(jobs, job{fmt.Sprintf("f%d", n), append([]string{"F", "sz:100"}, in...)})
+		}
+		// a tunnel that is half-closed when Close is called, the other direction still streaming
+		for _, in := range [][]string{
+			{"tun.0/s"}, {"tun.1/s"}, {"tun.0/w"}, {"tun.1/w"}, {"tun.0/s", "sc:40"},
+			{"tun.0/s", "reqmod.1", "R:1,0"}, {"tun.1/w", "idle.0", "late"}, {"tun.0/s", "tun.0/w", "async"},
+		} {
+			n++
+			cfg.Count("tunnel-half-closed")
+			jobs = append(jobs, job{fmt.Sprintf("f%d", n), append([]string{"F", "sz:100"}, in...)})
+		}
+		// further dials after the first late connection (Serve has returned): refused or closed, never left hanging
+		for _, in := range [][]string{
+			{"late", "late", "late"}, {"idle.1", "late", "late", "late"}, {"reqmod.0", "late", "late"}, {"late", "lateb", "late", "lateb"},
+		} {
+			n++
+			cfg.Count("late-after-serve-returned")
 			jobs = append(jobs, job{fmt.Sprintf("f%d", n), append([]string{"F", "sz:100"}, in...)})
 		}
 		// the in-flight exchange is a CONNECT: blind tunnel, through a downstream proxy, with MITM
